@@ -142,7 +142,7 @@ func (h *genericContextualizer) Execute(ctx heimdall.Context, sub *subject.Subje
 	}
 
 	if h.ttl > 0 {
-		cacheKey = h.calculateCacheKey(sub, vals, payload)
+		cacheKey = h.calculateCacheKey(ctx, sub, vals, payload)
 		if entry, err := cch.Get(ctx.AppContext(), cacheKey); err == nil {
 			var cd contextualizerData
 
@@ -353,6 +353,7 @@ func (h *genericContextualizer) readResponse(ctx heimdall.Context, resp *http.Re
 }
 
 func (h *genericContextualizer) calculateCacheKey(
+	ctx heimdall.Context,
 	sub *subject.Subject,
 	values map[string]string,
 	payload string,
@@ -370,6 +371,24 @@ func (h *genericContextualizer) calculateCacheKey(
 	hash.Write(stringx.ToBytes(payload))
 	hash.Write(ttlBytes)
 	hash.Write(sub.Hash())
+
+	// the values of the headers and cookies forwarded to the endpoint are part of the request sent to it,
+	// and the response depends on them. The length of a value separates it from the data following it
+	writeValue := func(value string) {
+		valueLen := make([]byte, int64BytesCount)
+		binary.LittleEndian.PutUint64(valueLen, uint64(len(value)))
+
+		hash.Write(valueLen)
+		hash.Write(stringx.ToBytes(value))
+	}
+
+	for _, headerName := range h.fwdHeaders {
+		writeValue(ctx.Request().Header(headerName))
+	}
+
+	for _, cookieName := range h.fwdCookies {
+		writeValue(ctx.Request().Cookie(cookieName))
+	}
 
 	// the iteration order of a map is random. To have a stable cache key,
 	// the values are processed in the order of their names
